@@ -186,6 +186,58 @@ def cell_obs(t):
     return o
 
 
+def std_vectors(L, A):
+    """float64 construction of the standard-orientation box vectors from lengths and angles (rows a, b, c)"""
+    la, lb, lc = [float(x) for x in L]
+    al, be, ga = [np.radians(float(x)) for x in A]
+    b = np.array([lb * np.cos(ga), lb * np.sin(ga), 0.0])
+    cx = lc * np.cos(be)
+    cy = (lb * lc * np.cos(al) - b[0] * cx) / b[1]
+    cz = np.sqrt(max(lc * lc - cx * cx - cy * cy, 0.0))
+    return np.array([[la, 0.0, 0.0], b, [cx, cy, cz]])
+
+
+def cell_getters_consistent(md, t, which=("vectors", "volumes", "lengths", "angles", "distances")):
+    """model-free oracle: whatever was read or assigned before, every getter describes the lengths and angles stored
+    NOW.  -> None or a description of the first inconsistency"""
+    L, A = t._unitcell_lengths, t._unitcell_angles
+    if "lengths" in which and t.unitcell_lengths is not L:
+        return "unitcell_lengths getter does not return the stored array"
+    if "angles" in which and t.unitcell_angles is not A:
+        return "unitcell_angles getter does not return the stored array"
+    if L is None or A is None:
+        if "vectors" in which and t.unitcell_vectors is not None:
+            return "unitcell_vectors of a trajectory without complete cell is not None"
+        if "volumes" in which and L is None and t.unitcell_volumes is not None:
+            return "unitcell_volumes of a trajectory without lengths is not None"
+        return None
+    if len(L) != len(A) or len(L) == 0:
+        return None
+    want = np.array([std_vectors(l, a) for l, a in zip(L, A)])
+    scale = np.asarray(L, dtype=np.float64).max(axis=1)
+    if "vectors" in which:
+        V = np.asarray(t.unitcell_vectors, dtype=np.float64)
+        if V.shape != want.shape or np.abs(V - want).max(axis=(1, 2)).max() > 1e-4 * scale.max() + 3e-6:
+            return "unitcell_vectors do not describe the stored lengths/angles"
+    if "volumes" in which:
+        vol = np.asarray(t.unitcell_volumes, dtype=np.float64)
+        wv = np.array([np.linalg.det(w) for w in want])
+        if vol.shape != wv.shape or np.abs(vol - wv).max() > 2e-4 * np.prod(np.asarray(L, dtype=np.float64), axis=1).max():
+            return "unitcell_volumes do not describe the stored lengths/angles"
+    if "distances" in which and t.n_atoms >= 2 and t.n_frames == len(L) and len(L) == t.n_frames:
+        pairs = np.array([[0, t.n_atoms - 1]])
+        try:
+            got = md.compute_distances(t, pairs, periodic=True)
+            fresh = md.Trajectory(np.array(t._xyz, copy=True), t._topology, unitcell_lengths=np.array(L, copy=True),
+                                  unitcell_angles=np.array(A, copy=True))
+            ref = md.compute_distances(fresh, pairs, periodic=True)
+            if got.shape != ref.shape or np.abs(got - ref).max() > 1e-4:
+                return "periodic compute_distances differs from the same call on a freshly built trajectory with the same cell"
+        except Exception:  # noqa: BLE001   (cells the kernels refuse are not this property's business)
+            pass
+    return None
+
+
 def rmsd_probe(md, t):
     """max |rmsd(precentered=True) - rmsd(precentered=False)| over reference frames of t itself, on deep copies"""
     tr = t._rmsd_traces
@@ -371,6 +423,10 @@ def run_case(md, case):
                 regs[op[1]].center_coordinates(mass_weighted=bool(op[2]))
             elif name == "superpose":
                 regs[op[1]].superpose(regs[op[2]], frame=int(op[3]))
+            elif name == "read_cell":
+                bad = cell_getters_consistent(md, regs[op[1]], (op[2],) if len(op) > 2 else ("vectors", "volumes", "lengths", "angles"))
+                if bad:
+                    prop.append({"step": si, "kind": "cell-getters-inconsistent", "op": name, "detail": bad, "register": op[1]})
             elif name == "set_xyz_new":
                 _, r, m, natoms = op
                 a = gen_xyz(seed, nsrc, m, natoms)
@@ -413,6 +469,12 @@ def run_case(md, case):
             else:
                 raise RuntimeError("unknown op %s" % name)
             steps.append("ok")
+            if case.get("check_cell_every_step"):
+                for ri, tt in enumerate(regs + ([new] if new is not None else [])):
+                    bad = cell_getters_consistent(md, tt, ("vectors", "volumes", "lengths", "angles"))
+                    if bad:
+                        prop.append({"step": si, "kind": "cell-getters-inconsistent", "op": name, "detail": bad, "register": ri})
+                        break
             if structural:
                 res_t = new if new is not None else src_reg
                 if bool(res_t._have_unitcell) != src_have:
